@@ -85,8 +85,11 @@ def evaluate(item, do_confirm):
     src = "/tmp/mut/%s/out/%s" % (pid, k)
     dst = os.path.join(V, "seeded", "%s-%s" % (pid, k))
     os.makedirs(dst, exist_ok=True)
-    for f in ("patch.diff", "demo.rs"):
-        shutil.copy(os.path.join(src, f), os.path.join(dst, f))
+    if os.path.exists(os.path.join(src, "patch.diff")):
+        for f in ("patch.diff", "demo.rs"):
+            shutil.copy(os.path.join(src, f), os.path.join(dst, f))
+    else:
+        src = dst                                   # the sub-agent's worktree is gone: re-evaluate the stored copy
     try:
         agent_meta = json.load(open(os.path.join(src, "meta.json")))
     except Exception:
@@ -104,9 +107,9 @@ def evaluate(item, do_confirm):
     elif "confirmation" in old:
         meta["confirmation"] = old["confirmation"]
     reg = registered()
-    checks = [c for c in NEIGH.get(pid, [pid]) if c in reg]
+    checks = [c for c in (EXTRA or NEIGH.get(pid, [pid])) if c in reg]
     rc, out = sh([os.path.join(V, "tools", "mutrun.sh"), "%s-%s" % (pid.lower(), k), os.path.join(src, "patch.diff")] + checks, timeout=7000)
-    results = {}
+    results = dict(old.get("results", {})) if EXTRA else {}
     for line in out.splitlines():
         m = re.match(r"^(C\d+) rc=(\d+) ?(.*)$", line)
         if m:
@@ -120,8 +123,13 @@ def evaluate(item, do_confirm):
     return pid, k, meta["caught_by"], meta.get("confirmation")
 
 
+EXTRA = []
+
+
 def main():
     args = sys.argv[1:]
+    if "--checks" in args:
+        EXTRA.extend(args[args.index("--checks") + 1].split(","))
     do_confirm = "--confirm" in args
     jobs = 3
     if "--jobs" in args:
